@@ -102,8 +102,10 @@ def main(out_path):
                     if isinstance(c, ast.Call) and isinstance(c.func, ast.Attribute) and c.func.attr == "create_server":
                         ssl_kw = any(k.arg == "ssl" and not (isinstance(k.value, ast.Constant) and k.value.value is None) for k in c.keywords)
                         wrapper = any(isinstance(x, ast.Name) and x.id == "TLSServerProtocol" for a in c.args[:1] for x in ast.walk(a))
+                        if any(k.arg is None for k in c.keywords): raise Untranslatable("%s:%d: create_server(**kwargs)" % (rel, c.lineno))
+                        kws = sorted(k.arg for k in c.keywords if k.arg != "ssl")
                         if (rel, c.lineno) not in [(l[0], l[1]) for l in listeners]:
-                            listeners.append((rel, c.lineno, ssl_kw, wrapper))
+                            listeners.append((rel, c.lineno, ssl_kw, wrapper, kws))
     missing = [b for b in BUILDERS if b not in builders]
     if missing: raise Untranslatable("builders not found: %s" % missing)
     if not uses: raise Untranslatable("no call sites found")
@@ -120,6 +122,10 @@ def main(out_path):
     lines.append(";\n".join('  ("%s", "%s")' % u for u in uses)); lines.append("].")
     lines.append(""); lines.append("Definition listeners : list (string * bool * bool) := [")
     lines.append(";\n".join('  ("%s:%d", %s, %s)' % (l[0], l[1], str(l[2]).lower(), str(l[3]).lower()) for l in listeners)); lines.append("].")
+    # keyword arguments (other than ssl=) of every loop.create_server call: asyncio's TLS handshake / shutdown timeouts are
+    # its defaults unless one is passed here
+    lines.append(""); lines.append("Definition listener_options : list (string * list string) := [")
+    lines.append(";\n".join('  ("%s:%d", [%s])' % (l[0], l[1], "; ".join('"%s"' % k for k in l[4])) for l in listeners)); lines.append("].")
     if not listeners: raise Untranslatable("no listening socket found")
     open(out_path, "w").write("\n".join(lines) + "\n")
     print("tlsconf: %d builders, %d call sites" % (len(builders), len(uses)))
